@@ -71,6 +71,7 @@ A_NONJSON = ["bytes", "set", "object", "complex", "decimal", "datetime", "class"
              "huge", "dictbytes", "circular", "tuplekey"]
 A_NOREPR = ["badrepr", "onlystr"]
 A_NOPICKLE = ["lambda", "lock", "localobj", "gen", "listlambda", "module", "badreprlock", "onlystrlock"]
+A_NOUNPICKLE = ["excbadinit", "reduceloadraises", "setstateraises", "listexcbadinit", "dictsetstate"]   # dumps ok, loads raises
 A_SURR = ["surr", "surrnest", "surrval", "surrtuple"]
 A_SURRKEY = ["surrkey", "surrkeynest"]
 SCALARS = {"int", "neg", "zero", "str", "empty", "none", "true", "false", "float"}
@@ -86,8 +87,10 @@ def gen_arg(r, surr=True):
         return r.choice(A_NONJSON)
     if k < .80:
         return r.choice(A_NOREPR)
-    if k < .93:
+    if k < .88:
         return r.choice(A_NOPICKLE)
+    if k < .93:
+        return r.choice(A_NOUNPICKLE)
     if not surr:
         return r.choice(A_NATIVE)
     return r.choice(A_SURR) if k < .975 else r.choice(A_SURRKEY)
@@ -390,6 +393,8 @@ def graph_stats(rep, case, obs):
                                         else "PBase0" if idx == 0 else "PBase+"))
         for m, a in zip(n["args"], s["args"] if len(s["args"]) == len(n["args"]) else [None] * len(n["args"])):
             rep.count("arg:rt_json=%d,rt_pickle=%d,repr=%d,str=%d" % (m["rt_json"], m["rt_pickle"], m["repr_ok"], m["str_ok"]))
+            if m["pickle_dumps_ok"] and not m["rt_pickle"]:
+                rep.count("arg:pickle_dumps_ok_but_loads_raises")
         for j in (s.get("cause"), None if s.get("suppress") else s.get("context")):
             if j is not None:
                 indeg[j] = indeg.get(j, 0) + 1
@@ -473,16 +478,16 @@ def run(ctx):
             if any(pred(f) for f in rep.failures[before:]):
                 corpus_known[sig] = True
     r = ctx.sub_rng("gen")
-    cases = [gen_case(r) for _ in range(ctx.n(3000, 60000))]
+    cases = [gen_case(r) for _ in range(ctx.n(2000, 60000))]
     broken, _ = explore(ctx, rep, cases, "main")
     rs = ctx.sub_rng("shadow")
-    b2, _ = explore(ctx, rep, [gen_case(rs, shadow=True) for _ in range(ctx.n(300, 4000))], "shadow", use_oracle=False)
+    b2, _ = explore(ctx, rep, [gen_case(rs, shadow=True) for _ in range(ctx.n(200, 4000))], "shadow", use_oracle=False)
     broken = broken or b2
     live = {k["signature"] for k in C.load_known() if k["property"] == "C19" and k["status"] == "known"}
     unexplained = [f for f in rep.failures if not any(p(f) for name, p in SIGNATURES.items() if name in live)]
     if (broken or any(not o["ok"] for o in rep.obligations)) and not unexplained:
         r2 = ctx.sub_rng("search")
-        explore(ctx, rep, [gen_case(r2) for _ in range(ctx.n(12000, 60000))], "search")
+        explore(ctx, rep, [gen_case(r2) for _ in range(ctx.n(8000, 60000))], "search")
     return rep.finish(SIGNATURES, corpus_known)
 
 
